@@ -14,7 +14,13 @@ def gen(rnd):
     for _ in range(rnd.randint(1, 4)):
         tasks.append({"how": rnd.choice(["start", "soon"]), "outcome": rnd.choice(["return", "raise", "cancel", "block"]),
                       "from_inner_ctx": rnd.random() < 0.4})
-    return {"tasks": tasks, "handler": rnd.choice([None, "accept", "decline"]), "late_start": rnd.random() < 0.3}
+    sc = {"tasks": tasks, "handler": rnd.choice([None, "accept", "decline"]), "late_start": rnd.random() < 0.3}
+    # drawn last so that the earlier draws (and with them the scenarios of earlier seeds) stay what they were
+    early = rnd.random() < 0.5
+    for t in tasks:
+        if t["how"] == "soon" and t["outcome"] == "cancel":
+            t["early_cancel"] = early      # cancel() between the spawn and the task's first step must not be lost
+    return sc
 
 
 async def scenario(sc):
@@ -71,6 +77,8 @@ async def scenario(sc):
                     h = await spawn()
                 handles.append(h)
                 info["handle"] = h
+                if t.get("early_cancel"):
+                    h.cancel()
             await anyio.sleep(0)
             await anyio.sleep(0)
             # handle set == spawned and not ended
@@ -83,9 +91,14 @@ async def scenario(sc):
             # cancel ends only that task
             for info, t in zip(infos, sc["tasks"]):
                 if t["outcome"] == "cancel":
-                    info["handle"].cancel()
-                    with anyio.fail_after(1):
-                        await info["handle"].wait_finished()
+                    if not t.get("early_cancel"):      # an early cancel() must be enough on its own
+                        info["handle"].cancel()
+                    try:
+                        with anyio.fail_after(1):
+                            await info["handle"].wait_finished()
+                    except TimeoutError:
+                        problems.append("a cancelled task did not finish: cancel() was lost" + (" (issued before the task's first step)" if t.get("early_cancel") else ""))
+                        release.set()
                     if not info["ended"]:
                         problems.append("wait_finished() returned before the cancelled task ended")
             for info, t in zip(infos, sc["tasks"]):
@@ -149,7 +162,7 @@ def search(seed, budget):
         if p:
             return {"violation": True, "input": sc, "detail": "; ".join(p[:3]), "evaluations": i + 1, "distinct": len(seen)}
     return {"violation": False, "evaluations": n, "distinct": len(seen),
-            "scope": "1-4 tasks via start_task/start_task_soon from the owner or an inner context; outcomes return/raise/cancelled/blocked until "
+            "scope": "1-4 tasks via start_task/start_task_soon from the owner or an inner context; outcomes return/raise/cancelled (also before the task's first step)/blocked until "
                      "teardown; handler none/accept/decline"}
 
 
